@@ -362,6 +362,30 @@ m("lh-retry-locked", "lock.reentry", B+"common/validator_pubkeys.go", "\t\tpc.rw
 
 m("cmp-near-const", "cmp.spec", B+"common/shuffling.go", "if uint64(spec.MAX_COMMITTEES_PER_SLOT) < committeesPerSlot {", "if uint64(spec.TARGET_COMMITTEE_SIZE) < committeesPerSlot {", "common.CommitteeCount[")
 
+
+m("lc-crossed-pair", "lit.copy", B+"fork.go", "\t\t\t\tParentRoot:    benv.ParentRoot,\n\t\t\t\tStateRoot:     benv.StateRoot,", "\t\t\t\tParentRoot:    benv.StateRoot,\n\t\t\t\tStateRoot:     benv.ParentRoot,", "EnvelopeToSignedBeaconBlock", nth=4)
+
+
+m("pi-union-bits", "pool.item", "eth2/pool/attestations.go", "&phase0.Attestation{AggregationBits: a.Participants, Data: d.Data, Signature: a.Sig}", "&phase0.Attestation{AggregationBits: agg.Participants, Data: d.Data, Signature: a.Sig}", "AttestationPool.Search@Attestation")
+m("fb-head-chain", "formula.spec", B+"altair/attestation.go", "isMatchingHead := isMatchingTarget && expectedHead == data.BeaconBlockRoot", "isMatchingHead := isMatchingSource && expectedHead == data.BeaconBlockRoot", "GetApplicableAttestationParticipationFlags:isMatchingHead")
+
+
+m("fs-wrong-stake", "formula.spec", B+"phase0/deltas.go", "res.Target.Rewards[i] += baseReward * prevEpochTargetStake / totalBalance", "res.Target.Rewards[i] += baseReward * prevEpochSourceStake / totalBalance", "AttestationRewardsAndPenalties:res.Target.Rewards[i]")
+
+
+m("lk-canon", "link.kind", F+"proto/proto_array.go", "\t\tindex = node.TransitionParent\n\t}\n\treturn NodeRef{}, fmt.Errorf", "\t\tindex = node.ForkchoiceParent\n\t}\n\treturn NodeRef{}, fmt.Errorf", "CanonAtSlot@TransitionParent")
+m("lk-weights", "link.kind", F+"proto/proto_array.go", "deltas[node.ForkchoiceParent-pr.indexOffset] += delta", "deltas[node.TransitionParent-pr.indexOffset] += delta", "ApplyScoreChanges@ForkchoiceParent")
+m("it-early", "insert.together", F+"proto/proto_array.go", "\tparentBlockSlot, ok := pr.blockSlots[parent]\n", "\tpr.blockSlots[blockRoot] = blockSlot\n\tparentBlockSlot, ok := pr.blockSlots[parent]\n", "ProcessBlock.blockSlots")
+m("fp-wrong-cp", "finality.pairing", B+"phase0/justification.go", "toFinalize = &oldPreviousJustified", "toFinalize = &oldCurrentJustified", "ProcessEpochJustification.rule", nth=2)
+m("ma-zero-prefix", "make.append", B+"deneb/execution_payload.go", "make([]common.Hash32, 0, len(body.BlobKZGCommitments))", "make([]common.Hash32, len(body.BlobKZGCommitments))", "ProcessExecutionPayload:versionedHashes")
+m("si-rotate", "sibling.index", B+"deneb/state.go", "\tv, err := state.Get(_nextSyncCommittee)\n\tif err != nil {\n\t\treturn err\n\t}\n\tif err := state.Set(_currentSyncCommittee, v)", "\tv, err := state.Get(_currentSyncCommittee)\n\tif err != nil {\n\t\treturn err\n\t}\n\tif err := state.Set(_currentSyncCommittee, v)", "deneb.BeaconStateView.RotateSyncCommittee")
+m("es-next-from-current", "epc.source", B+"common/epochs_context.go", "\tnext, err := state.NextSyncCommittee()\n", "\tnext, err := state.CurrentSyncCommittee()\n", "LoadSyncCommittees:NextSyncCommittee", nth=1)
+m("es-inplace-filter", "epc.source", B+"phase0/attester.go", "\t\t\tparticipants = participants[:0]                                     // reset old slice (re-used in for loop)\n\t\t\tparticipants = append(participants, committee...)                   // add committee indices\n\t\t\tparticipants = att.AggregationBits.FilterParticipants(participants) // only keep the participants\n", "\t\t\tparticipants = att.AggregationBits.FilterParticipants(committee) // only keep the participants\n", "ComputeEpochAttesterData->FilterParticipants")
+m("esh-reslice", "epc.shared", B+"common/epochs_context.go", "epc.EffectiveBalances = make([]Gwei, len(indicesBounded), len(indicesBounded))", "epc.EffectiveBalances = append(epc.EffectiveBalances[:0], make([]Gwei, len(indicesBounded))...)", "loadCurrentStake:EpochsContext.EffectiveBalances")
+m("dp-topup-decoded", "deposit.pop", B+"phase0/deposit.go", "\tblsPub, err := dep.Data.Pubkey.Pubkey()\n\t// Check if it is a known validator that is depositing (\"if pubkey not in validator_pubkeys\")\n\tif !exists {\n\t\tif err != nil {\n\t\t\t// deposit is skipped, still valid block.\n\t\t\treturn nil\n\t\t}\n", "\tblsPub, err := dep.Data.Pubkey.Pubkey()\n\tif _, serr := dep.Data.Signature.Signature(); serr != nil {\n\t\treturn nil\n\t}\n\t// Check if it is a known validator that is depositing (\"if pubkey not in validator_pubkeys\")\n\tif !exists {\n\t\tif err != nil {\n\t\t\t// deposit is skipped, still valid block.\n\t\t\treturn nil\n\t\t}\n", "ProcessDeposit.signature-decode.new-only")
+m("vb-name-cross", "view.build", B+"altair/fork.go", "\t\tpreviousEpochParticipation,\n\t\tcurrentEpochParticipation,", "\t\tcurrentEpochParticipation,\n\t\tpreviousEpochParticipation,", "UpgradeToAltair.FromFields")
+m("fs-disparity-sign", "formula.spec", "eth2/gossipval/common.go", "maxSlot := slotAfter(MAXIMUM_GOSSIP_CLOCK_DISPARITY)", "maxSlot := slotAfter(-MAXIMUM_GOSSIP_CLOCK_DISPARITY)", "CheckSlotSpan:maxSlot")
+
 # lazy.init / lock.atomic positive cases are today's known findings (no mutant needed: they are violations on the tree)
 
 M = [x for x in M if not x["expect"].startswith("XX")]
